@@ -83,11 +83,16 @@ def run(cmd, cwd=None, timeout=None, env=None, stdin=None, stdout=None):
 
 # ---- the tie, part 1: constants regenerated from the source -----------------------------
 def regen_consts(ctx):
-    r = run([sys.executable, os.path.join(VERIF, "tools", "extract_consts.py")])
-    if r.returncode != 0:
-        ctx.log("constant extraction failed:", r.stdout.strip())
-        return False, r.stdout
-    return True, r.stdout
+    """Regenerates Generated/Consts.lean (constants) and Generated/Shapes.lean (field and variant
+    names of the modelled types) from /repo's current source."""
+    outs = []
+    for script in ("extract_consts.py", "extract_shapes.py"):
+        r = run([sys.executable, os.path.join(VERIF, "tools", script)])
+        outs.append(r.stdout)
+        if r.returncode != 0:
+            ctx.log(f"{script} failed:", r.stdout.strip())
+            return False, "".join(outs)
+    return True, "".join(outs)
 
 
 # ---- Lean side --------------------------------------------------------------------------
@@ -243,6 +248,6 @@ TRUSTED_BASE = [
     "Lean 4.33.0 kernel (elaborated proofs; thorough tier re-checks the .olean files with leanchecker)",
     "axioms per theorem audited by `#print axioms`: subset of {propext, Classical.choice, Quot.sound}",
     "Lean compiler/runtime for the executable use of the model (driver, monitors)",
-    "tools/extract_consts.py (constants regenerated from /repo on every run)",
+    "tools/extract_consts.py and tools/extract_shapes.py (constants, and the field/variant names of the modelled types, regenerated from /repo on every run; Model/Inventory.lean must still compile against them)",
     "the Rust correspondence harness and the comparison scripts in tools/",
 ]
